@@ -930,9 +930,15 @@ func (c *Conn) handleStartTLS() {
 	// This is different from just calling reset() since we want the Backend to
 	// be able to see the information about TLS connection in the
 	// ConnectionState object passed to it.
-	if session := c.Session(); session != nil {
+	// The session is taken off the connection before it is logged out, so
+	// that a Close running at the same time (Server.Close) does not log it
+	// out a second time.
+	c.locker.Lock()
+	session := c.session
+	c.session = nil
+	c.locker.Unlock()
+	if session != nil {
 		session.Logout()
-		c.setSession(nil)
 	}
 	c.helo = ""
 	c.didAuth = false
